@@ -47,6 +47,10 @@ func (im *Impl) Cleanup() {
 	if im.rb != nil {
 		im.rbEnd()
 	}
+	if im.S != nil && im.S.Replica() != nil { // nothing stays open (background goroutines watching it stop)
+		im.S.Replica().VerifSyncDrainer()
+		im.S.Close()
+	}
 	for _, d := range im.cleanups {
 		os.RemoveAll(d)
 		os.RemoveAll(d + ".copy")
@@ -339,14 +343,11 @@ func (im *Impl) Exec(line string) (out string) {
 	case "ckpt":
 		return res(im.S.SetCheckpoint(w[1]))
 	case "rbbegin":
-		return im.rbBegin(w[1])
+		return im.rbBegin(w[1], len(w) > 2 && w[2] == "real")
 	case "rbreload":
 		return im.rbReload()
 	case "lunmap":
-		if im.rep() == nil {
-			return "refused"
-		}
-		return res(im.S.UpdateLUNMap())
+		return im.rbLunmap()
 	case "rbpromote":
 		return im.rbPromote()
 	case "rbend":
